@@ -98,7 +98,10 @@ type Case struct {
 	Flusher    string `json:"flusher,omitempty"` // how the underlying writer can flush: "" (not at all), "flush", "flusherror", "both"
 	// Prior: the same handler (same method, host and path) first serves another request, which it answers 302 with a Location
 	// header and for which every configured resolver succeeds with 203.0.113.250; the judged request comes second.
-	Prior      bool        `json:"prior,omitempty"`
+	Prior bool `json:"prior,omitempty"`
+	// RawPath: when set, the escaped form of Path the server received (URL.RawPath); Path stays the decoded request path,
+	// which is what the record carries
+	RawPath    string      `json:"raw_path,omitempty"`
 	Global     ResolverCfg `json:"global_resolver"`
 	Route      ResolverCfg `json:"route_resolver"`
 	Method     string      `json:"method"`
@@ -531,7 +534,7 @@ func serve(c *Case, withLogger bool) (*run, error) {
 		func() {
 			defer func() { _ = recover() }()
 			preq := &http.Request{
-				Method: c.Method, URL: &url.URL{Scheme: "http", Host: "placeholder", Path: c.Path, RawQuery: c.Query},
+				Method: c.Method, URL: &url.URL{Scheme: "http", Host: "placeholder", Path: c.Path, RawPath: c.RawPath, RawQuery: c.Query},
 				Proto: "HTTP/1.1", ProtoMajor: 1, ProtoMinor: 1, Header: http.Header{priorHeader: {"1"}}, Host: c.Host,
 				RemoteAddr: "198.51.100.77:4000", RequestURI: c.Path, Body: http.NoBody,
 			}
@@ -541,7 +544,7 @@ func serve(c *Case, withLogger bool) (*run, error) {
 		*r = *fresh
 	}
 	req := &http.Request{
-		Method: c.Method, URL: &url.URL{Scheme: "http", Host: "placeholder", Path: c.Path, RawQuery: c.Query},
+		Method: c.Method, URL: &url.URL{Scheme: "http", Host: "placeholder", Path: c.Path, RawPath: c.RawPath, RawQuery: c.Query},
 		Proto: "HTTP/1.1", ProtoMajor: 1, ProtoMinor: 1, Header: http.Header{}, Host: c.Host,
 		RemoteAddr: c.RemoteAddr, RequestURI: c.Path, Body: http.NoBody,
 	}
@@ -1059,6 +1062,14 @@ func genCase(t *rapid.T) *Case {
 		}
 	default:
 		c.Path = "/r/" + seg
+	}
+	if gen.Chance(t, 1, 6, "rawpath") && c.Kind != "redirect" {
+		// an escaped slash inside the last segment: the server keeps the escaped form in URL.RawPath and routes on it, the
+		// request path stays the decoded one
+		base := strings.TrimSuffix(c.Path, "/")
+		slash := c.Path[len(base):]
+		c.RawPath = base + "%2Fz" + slash
+		c.Path = base + "/z" + slash
 	}
 	c.Query = gen.Pick(t, queryPool, "query")
 	if gen.Chance(t, 1, 5, "junkRemote") {
